@@ -86,7 +86,10 @@ def run(ctx, n, failures):
     for si, (status, res) in enumerate(results):
         if status != "ok":
             # the process died or hung: find the job by running the shard's jobs one per process
+            first = res.get("failed_job_index", 0) if isinstance(res, dict) else 0
             for j, job in enumerate(jobs[si]["jobs"]):
+                if j < first:
+                    continue
                 st1, r1 = sc.run_worker("sched_worker", {"jobs": [job]}, timeout=120)
                 if st1 != "ok":
                     c = shards[si][j]
@@ -97,7 +100,7 @@ def run(ctx, n, failures):
                         {"correspondence": "X-sched-det", "theorems": THEOREMS, "case": d, "events": c["events"]},
                         no_input=True)
                     return len(cases), [], []
-            raise RuntimeError("sched_worker failed as a batch but not job by job: %r" % (str(res)[:800],))
+            raise RuntimeError("sched_worker failed: %r" % (str(res)[:800],))
         for j, r in enumerate(res):
             impl[si + j * len(shards)] = r
     encs = [enc(c) for c in cases]
